@@ -164,6 +164,11 @@ func Assert(c bool, id string) {
 	}
 }
 
+// Region names a set of inputs (a predicate over the harness's symbolic inputs).
+// Known findings refer to regions; the VM reports separately any violation
+// outside the regions its first model lies in.
+func Region(name string, cond bool) {}
+
 func Reach(id string) {
 	mu.Lock()
 	out.Reached = append(out.Reached, id)
